@@ -208,7 +208,7 @@ NOT_APPLICABLE = {}
 
 PROPS = {
     "C01": {
-        "modules": ["RsddModel.Props.C01", "RsddModel.Props.TieIte"],
+        "modules": ["RsddModel.Props.C01", "RsddModel.Props.C01Total", "RsddModel.Props.TieIte"],
         "streams": [BDD_STREAM],
         "rule": BDD_RULE,
         "trusted": ["modelled not verified: unique table (C02), FxHasher (arbitrary function), unsafe aliasing of compute_table, std HashMap memo of cond_with_alloc (association list)"],
@@ -217,11 +217,11 @@ PROPS = {
         "level_text": "Kernel-checked theorems (run_refines, step_correct, run_stable) state that every diagram returned by any operation "
                       "sequence of the model builder denotes exactly the specified Boolean function, for every injective level map, every "
                       "lawful cache and every fuel; the model is tied to the Rust by differential runs (model pool == implementation pool "
-                      "structurally, implementation truth tables == spec).",
+                      "structurally, implementation truth tables == spec). Totality (C01Total): for every program the specification accepts (operand indices in range, variables inside the order), every lawful cache and every fuel >= number of variables + 1 the run returns (run_total, ite_total), so the statement holds for every accepted call sequence, not only for those that happen to return (run_total_correct, run_isSome_iff_valid, run_fuel_irrelevant).",
         "level_note": "Trusted: Lean kernel; axioms propext/Classical.choice/Quot.sound; harness+driver+check.py; the correspondence is a sample. "
                       "The four stages of Ite::new are regenerated arm by arm from src/builder/cache/ite.rs on every run (tools/gen_source_model.py) "
                       "and proved equal to the model's (TieIte.*). "
-                      "Modelled not verified: unique table (C02), FxHasher, unsafe aliasing, HashMap memo. Partial correctness (returned results).",
+                      "Modelled not verified: FxHasher, unsafe aliasing, HashMap memo; the unique table is modelled at store level in C02Store and proved to refine the tree reading.",
         "explanation": "run_refines/step_correct: every pool entry of the model builder denotes the function the spec assigns, "
                        "for every lawful cache, injective level map and fuel; tied to the code by the bdd stream (model = implementation "
                        "structurally, implementation = spec truth tables).",
@@ -307,7 +307,7 @@ PROPS = {
         "explanation": "C08.* theorems; wmc stream checks function, paths, counts and exact equality with the mirrored smooth.",
     },
     "C03": {
-        "modules": ["RsddModel.Props.C03", "RsddModel.Props.TieIte"],
+        "modules": ["RsddModel.Props.C03", "RsddModel.Props.C03Total", "RsddModel.Props.TieIte"],
         "streams": [SDD_STREAM],
         "rule": "operation programs over CompressionSddBuilder: vtrees right-linear / left-linear / balanced / random splits over identity or shuffled "
                 "labels, compression on (3/4) and off (1/4), hooked unique-table capacity 4/8/default; non-trivial = a result has a decision node "
@@ -317,8 +317,8 @@ PROPS = {
         "level_text": "Kernel-checked: for every vtree, both compression settings, every lawful apply and ite cache and every fuel, each SDD-builder "
                       "operation returns a diagram denoting the specified function (and_correct, or_correct, condition_correct, ite_correct, "
                       "exists_correct, compose_correct) and any operation sequence refines the specification pool (run_refines, run_stable); tied to "
-                      "the code by the sdd stream (canonical prints equal with compression on, truth tables otherwise).",
-        "level_note": "Trusted: Lean kernel; allowed axioms; harness+driver. Ite::new over SDD pointers is regenerated from the source text and proved equal to the model's (TieIte.sdd_*). Modelled: unique tables, HashMap caches, lca. Partial correctness.",
+                      "the code by the sdd stream (canonical prints equal with compression on, truth tables otherwise). Totality (C03Total): on pointers satisfying the positional invariant every builder result satisfies (Pos; plain WF is not enough: wf_not_enough), for every fuel >= vtree height + 1 every operation returns and is correct (and_total_correct, ..., compose_total_correct), hence every valid program runs to completion with results denoting the specified functions (run_total_correct, run_isSome_iff, run_fuel_indep).",
+        "level_note": "Trusted: Lean kernel; allowed axioms; harness+driver. Ite::new over SDD pointers is regenerated from the source text and proved equal to the model's (TieIte.sdd_*). Modelled: unique tables, HashMap caches, lca.",
         "explanation": "C03.* theorems; sdd stream: model == implementation (canonical form), implementation == spec truth tables.",
     },
     "C14": {
